@@ -743,6 +743,41 @@ func c01ParamOf(v ssa.Value) *ssa.Parameter {
 	return p
 }
 
+// c01FuncOfParam: the function a func-typed parameter denotes when every call site of its function (in the root package)
+// passes the same function value.
+func c01FuncOfParam(prm *ssa.Parameter, depth int) (fn *ssa.Function, recv ssa.Value) {
+	if c01P == nil || prm.Parent() == nil {
+		return nil, nil
+	}
+	if _, isSig := prm.Type().Underlying().(*types.Signature); !isSig {
+		return nil, nil
+	}
+	idx := -1
+	for i, q := range prm.Parent().Params {
+		if q == prm {
+			idx = i
+		}
+	}
+	n := 0
+	for _, F := range c01P.FuncsOfPkg("") {
+		for _, cs := range Calls(F, func(string) bool { return true }) {
+			if StaticCallee(cs) != prm.Parent() || idx < 0 || idx >= len(cs.Common().Args) {
+				continue
+			}
+			g, r := c01FuncOfValueD(cs.Common().Args[idx], depth+1)
+			if g == nil || (fn != nil && g != fn) {
+				return nil, nil
+			}
+			fn, recv = g, r
+			n++
+		}
+	}
+	if n == 0 {
+		return nil, nil
+	}
+	return fn, recv
+}
+
 func c01SameStrip(a, b ssa.Value) bool {
 	if a == nil || b == nil {
 		return false
@@ -776,18 +811,33 @@ func c01FuncOfValueD(v ssa.Value, depth int) (fn *ssa.Function, recv ssa.Value) 
 		case *ssa.UnOp:
 			// a function variable captured by a closure: follow the binding's stores
 			if fv, isFV := u.X.(*ssa.FreeVar); isFV && u.Op == token.MUL {
-				for _, b := range freeVarBindings(fv) {
-					if a, isAlloc := b.(*ssa.Alloc); isAlloc {
-						for _, st := range storesTo(a) {
-							if f2, r2 := c01FuncOfValueD(st.Val, depth+1); f2 != nil {
-								fn, recv = f2, r2
-							}
+				var cells []*ssa.Alloc
+				var follow func(fv *ssa.FreeVar, d int)
+				follow = func(fv *ssa.FreeVar, d int) {
+					for _, b := range freeVarBindings(fv) {
+						if a, isAlloc := b.(*ssa.Alloc); isAlloc {
+							cells = append(cells, a)
+						} else if fv2, isFV2 := b.(*ssa.FreeVar); isFV2 && d < 3 {
+							follow(fv2, d+1) // captured again by a closure nested in the closure
+						}
+					}
+				}
+				follow(fv, 0)
+				for _, a := range cells {
+					for _, st := range storesTo(a) {
+						if f2, r2 := c01FuncOfValueD(st.Val, depth+1); f2 != nil {
+							fn, recv = f2, r2
 						}
 					}
 				}
 			}
 		case *ssa.Function:
 			fn = u
+		case *ssa.Parameter:
+			// a function handed down as an argument: the one function every caller in the package passes
+			if g, r2 := c01FuncOfParam(u, depth); g != nil {
+				fn, recv = g, r2
+			}
 		case *ssa.MakeClosure:
 			f := u.Fn.(*ssa.Function)
 			if strings.HasPrefix(f.Synthetic, "bound method wrapper") && len(u.Bindings) == 1 {
@@ -893,6 +943,16 @@ func c01ReachableFns(f *ssa.Function, depth int) map[*ssa.Function]bool {
 				h, _ = c01FuncOfValue(call.Common().Value)
 			}
 			rec(h, d-1)
+			// a function value handed to a module helper (outsideRegion(region, func() error {…})) runs on g's behalf
+			if h != nil && inModule(h) {
+				for _, a := range call.Common().Args {
+					if _, isSig := a.Type().Underlying().(*types.Signature); isSig {
+						if ha, _ := c01FuncOfValue(a); ha != nil && ha != g {
+							rec(ha, d-1)
+						}
+					}
+				}
+			}
 		}
 	}
 	rec(f, depth)
@@ -1152,6 +1212,9 @@ func c01ClaimsParam(f *ssa.Function) bool {
 }
 
 func c01Traversals(p *Prog) []c01Traversal {
+	if c01P == nil {
+		c01P = p
+	}
 	var out []c01Traversal
 	seen := map[*ssa.Function]bool{}
 	for _, f := range p.FuncsOfPkg("") {
